@@ -323,3 +323,10 @@ pub mod verif_hooks_interactive {
 pub mod verif_hooks_verify {
   pub use crate::verify::verif_hooks::*;
 }
+
+/// verification hooks of embedded-language extraction (`languageInjections`, documents per file)
+#[cfg(feature = "verif-hooks")]
+pub mod verif_hooks_injection {
+  pub use crate::lang::verif_hooks::*;
+  pub use crate::utils::verif_hooks::{run_documents, scan_documents};
+}
